@@ -169,6 +169,36 @@ def b2(fb, chk):
     chk.check(not extra, "B2", "arm:others", "no handler for requests outside the table", "handlers called for %s" % sorted(extra), fr.loc())
 
 
+def _ack_value_class(fb, sym, body):
+    """Class of the 64-bit value acknowledged: 'payload' (the handler's Ok value), 'errno' (-raw_os_error),
+    'einval' (-EINVAL), 'errno|einval' (-(raw_os_error or EINVAL)), or '?'."""
+    t = body
+    while t[0] in ("ref", "deref"):
+        t = t[1]
+    if t[0] == "call" and t[1] == "new" and len(t[2]) == 1:
+        t = t[2][0]
+    while t[0] in ("cast", "ref", "deref"):
+        t = t[1]
+    if t[0] == "un" and t[1] == "Neg":
+        x = t[2]
+        while x[0] in ("cast", "ref", "deref"):
+            x = x[1]
+        if x[0] in ("unwrap", "field", "down"):
+            return "errno" if any(s_[0] == "call" and s_[1] == "raw_os_error" for s_ in subterms(x)) else "?"
+        if x[0] == "call" and x[1] == "unwrap_or" and len(x[2]) == 2:
+            a0, a1 = x[2]
+            if a0[0] == "call" and a0[1] == "raw_os_error" and const_eval(fb, sym, a1) == 22:
+                return "errno|einval"
+            return "?"
+        v = const_eval(fb, sym, x)
+        if v == 22 or (x[0] == "cname" and x[1].endswith("EINVAL")):
+            return "einval"
+        return "?"
+    if any(s_[0] == "down" and s_[2] == "Ok" for s_ in subterms(t)) and not any(s_[0] == "un" for s_ in subterms(t)):
+        return "payload"
+    return "?"
+
+
 def b3(fb, chk):
     fr = common.dispatch_fn(fb, "FrontendReqHandler")
     sm = ServerModel(fb, "FrontendReqHandler", common.FE_HANDLER_TRAIT)
@@ -228,23 +258,25 @@ def b3(fb, chk):
             body = sym.arg_terms(sends[0])[2]
             from vlint.paths import pick
             body = pick(body, {b: i for i, b in enumerate(o.path)})
-            case = "ok" if any(a[0] == "ok" and root_of(a[1])[0] == "param" and a[1][0] != "call" for a in o.atoms) else None
-            if case is None:
-                if any(a[0] == "ok" and a[1][0] == "call" and a[1][1] == "raw_os_error" for a in o.atoms):
-                    case = "errno"
-                else:
-                    case = "other"
-            values.setdefault(case, set()).add(show(body)[:90])
+            is_ok = any(a[0] == "ok" and root_of(a[1])[0] == "param" and a[1][0] != "call" for a in o.atoms)
+            has_errno = any(a[0] == "ok" and a[1][0] == "call" and a[1][1] == "raw_os_error" for a in o.atoms)
+            no_errno = any(a[0] == "notok" and a[1][0] == "call" and a[1][1] == "raw_os_error" for a in o.atoms)
+            values.setdefault("ok" if is_ok else "err", []).append((_ack_value_class(fb, sym, body), has_errno, no_errno, show(body)[:90]))
     chk.check(not cond_probs, "B3", "ack-helper:condition", "ack sent iff negotiated && NEED_REPLY", "; ".join(sorted(cond_probs)), ackf.loc())
-    okv = values.get("ok", set())
-    errno_v = values.get("errno", set())
-    other_v = values.get("other", set())
-    good_ok = okv and all("as Ok).0" in v and "Neg" not in v for v in okv)
-    good_errno = errno_v and all("Neg(" in v and "raw_os_error" in v for v in errno_v)
-    good_other = other_v and all("Neg(EINVAL)" in v for v in other_v)
-    chk.check(bool(good_ok), "B3", "ack-helper:value:ok", "Ok(n) -> n", "ack value for Ok is %s" % sorted(okv), ackf.loc())
-    chk.check(bool(good_errno), "B3", "ack-helper:value:errno", "handler error with errno e -> -e", "ack value for errno errors is %s" % sorted(errno_v), ackf.loc())
-    chk.check(bool(good_other), "B3", "ack-helper:value:other", "other errors -> -EINVAL", "ack value for other errors is %s" % sorted(other_v), ackf.loc())
+    okv = values.get("ok", [])
+    errv = values.get("err", [])
+    good_ok = okv and all(c == "payload" for c, _h, _n, _s in okv)
+    # errno known on the path -> -errno; errno absent (or not a handler error) -> -EINVAL; `unwrap_or(errno, EINVAL)` is both
+    good_errno = any(c in ("errno", "errno|einval") for c, _h, _n, _s in errv) and \
+        all(c in ("errno", "errno|einval") for c, h, _n, _s in errv if h)
+    good_other = any(c in ("einval", "errno|einval") for c, _h, _n, _s in errv) and \
+        all(c in ("einval", "errno|einval") if (n or not h) and c != "errno|einval" else True for c, h, n, _s in errv) and \
+        all(c in ("errno", "einval", "errno|einval") for c, _h, _n, _s in errv)
+    chk.check(bool(good_ok), "B3", "ack-helper:value:ok", "Ok(n) -> n", "ack value for Ok is %s" % sorted({s_ for _c, _h, _n, s_ in okv}), ackf.loc())
+    chk.check(bool(good_errno), "B3", "ack-helper:value:errno", "handler error with errno e -> -e",
+              "ack value for handler errors carrying an errno is %s" % sorted({(c, s_) for c, h, _n, s_ in errv}), ackf.loc())
+    chk.check(bool(good_other), "B3", "ack-helper:value:other", "other errors -> -EINVAL",
+              "ack value for other errors is %s" % sorted({(c, s_) for c, _h, _n, s_ in errv}), ackf.loc())
     # reply header of the ack: REPLY, request's code, size_of::<u64>
     for g in fb.find(name="new_reply_header", self_adt="FrontendReqHandler"):
         mg = must_of(fb, g)
